@@ -60,8 +60,10 @@ FUNCS_A = ["linear", "cornerpeak", "discont", "c0", "expvar", "polynomial", "dis
            "gaussian", "oscillatory", "productpeak"]
 # points collide; p2 sits exactly on the discontinuity / kink of several functions
 P1, P2, P3 = (0.25, 0.75), (0.5, 0.5), (0.125, 0.5)
+# refused_*: a request the function refuses (a point of the wrong dimension): the caller catches the exception; no evaluation took place,
+# so cache and counter must be what they were
 OPS = ["single_p1", "single_p2_list", "single_p1_array", "batch_p1_p2", "batch_p2_p2_p3", "batch_empty", "batch_array_p3_p1",
-       "vectorized_p1_p3", "reset", "deactivate", "size"]
+       "vectorized_p1_p3", "reset", "deactivate", "size", "refused_single", "refused_batch"]
 
 
 def _apply(f, op, model, out_len, ref_eval):
@@ -122,6 +124,18 @@ def _apply(f, op, model, out_len, ref_eval):
             want = np.array([ref_eval(p) for p in (P1, P3)]).reshape(2, out_len)
             if not np.allclose(got.reshape(2, out_len), want, rtol=1e-13, atol=1e-15):
                 bad.append(("vectorized_values", "eval_vectorized %r, scalar eval %r" % (got.tolist(), want.tolist())))
+    elif op == "refused_single":
+        try:
+            f((0.25,))
+            model["pts"].add((0.25,))            # accepted after all (a function that ignores missing coordinates): it counts
+        except Exception:
+            pass
+    elif op == "refused_batch":
+        try:
+            f([P1, (0.125,)])
+            model["pts"].update([P1, (0.125,)])
+        except Exception:
+            pass
     elif op == "reset":
         f.reset_dictionary()
         model["pts"] = set()
